@@ -66,11 +66,13 @@ class StatementSplitter:
 
         # BEGIN and CASE/WHEN both end with END
         if unified == 'END':
-            if not self._in_case:
-                self._begin_depth = max(0, self._begin_depth - 1)
-            else:
+            if self._in_case:
                 self._in_case -= 1
-            return -1
+                return -1
+            # only an END that closes a BEGIN which raised the level lowers it
+            opened = self._is_create and self._begin_depth > 0
+            self._begin_depth = max(0, self._begin_depth - 1)
+            return -1 if opened else 0
 
         if (unified in ('IF', 'FOR', 'WHILE', 'CASE')
                 and self._is_create and self._begin_depth > 0):
